@@ -568,7 +568,8 @@ func CellString(s string) *string {
 }
 
 // compareByValue compares two cells holding int64 literals, float64 literals
-// or time anchors by their value. It returns false for anything else.
+// or time anchors by their value, and literals of different types by type.
+// It returns false for anything else.
 func compareByValue(ci, cj *Cell) (int, bool) {
 	sign := func(less, greater bool) int {
 		switch {
@@ -584,7 +585,12 @@ func compareByValue(ci, cj *Cell) (int, bool) {
 		return 0, false
 	case ci.T != nil && cj.T != nil:
 		return sign(ci.T.Before(*cj.T), ci.T.After(*cj.T)), true
-	case ci.L != nil && cj.L != nil && ci.L.Type() == cj.L.Type():
+	case ci.L != nil && cj.L != nil && ci.L.Type() != cj.L.Type():
+		// Literals of different types are ordered by type; mixing the
+		// numeric order of numbers with the textual order against other
+		// types would not be transitive.
+		return sign(ci.L.Type() < cj.L.Type(), ci.L.Type() > cj.L.Type()), true
+	case ci.L != nil && cj.L != nil:
 		switch ci.L.Type() {
 		case literal.Int64:
 			vi, _ := ci.L.Int64()
